@@ -15,7 +15,8 @@ index 0, 1, 30, 31, 32, 33 or the last one: flagged entries bit-constant in ever
 law, Gillespie steps are legal events, and a tau-leap entry whose outflow makes "never changed" impossible (probability
 below 1e-30 under the Poisson-firings model) is not frozen; and (viii) flag provenance: the map in effect generated from
 Species.chstt (bool / per-environment dictionaries with and without "default"), edited with set_chemostat against the species
-flags, given explicitly over truthy species flags, reset or regenerated, on 2- and 3-environment grids and graphs.
+flags, given explicitly over truthy species flags, reset or regenerated, on 2- and 3-environment grids and graphs; and
+(ix) reservoir cells (every species of a cell flagged, the other cells empty): the free neighbours are fed in every engine.
 """
 import itertools
 import math
@@ -177,8 +178,11 @@ def _engines(out, spec, system, seeds, dt, nsteps, gil_tmax=0.15, gil_iter=120):
                     if len(out) > before:
                         break
             elif kind == "gillespie":
+                logb = [0.0] * n          # log of the bound of P(entry untouched by every event so far) under the CME event law
+                legal = True
                 for k in range(len(d) - 1):
-                    tab, a0 = cme.effect_table(cme.channels(spec, d[k], chem))
+                    chs = cme.channels(spec, d[k], chem)
+                    tab, a0 = cme.effect_table(chs)
                     dk = cme.diff_key(d[k], d[k + 1])
                     if dk not in tab:
                         if n > 16:      # wide states: the change only
@@ -188,7 +192,26 @@ def _engines(out, spec, system, seeds, dt, nsteps, gil_tmax=0.15, gil_iter=120):
                         out.append(("C03:gillespie:illegal-step",
                                     ("%s is not an enabled event with the chemostat exemption; enabled effects: %r"
                                      % (what, sorted(tab)))[:900]))
+                        legal = False
                         break
+                    if a0 > 0:
+                        touch = {}
+                        for name, prop, eff in chs:
+                            if prop > 0:
+                                for q in eff:
+                                    touch[q] = touch.get(q, 0.0) + prop
+                        for q, a in touch.items():
+                            logb[q] += math.log1p(-min(a / a0, 1.0)) if a < a0 else -1e9
+                if legal and len(d) > 1:
+                    # a channel that feeds an unflagged entry (e.g. the outgoing jumps of a chemostated neighbour) is taken
+                    # with its CME probability a_c / a0: P(never in all these events) <= exp(logb)
+                    for q in range(n):
+                        if not chem[q] and logb[q] <= math.log(FROZEN_EPS) and all(rec[q] == x0[q] for rec in d):
+                            out.append(("C03:gillespie:unflagged-entry-frozen",
+                                        "seed %d: entry %d (not chemostated, amount %g) is touched by none of the %d events although the "
+                                        "channels that change it have probability a/a0 at every step: P <= %.3g under the master equation"
+                                        % (seed, q, x0[q], len(d) - 1, math.exp(max(logb[q], -700.0)))))
+                            break
             else:  # tau-leap: unflagged entries stay integers; flagged handled above
                 for k, rec in enumerate(d):
                     if any(v != round(v) for v in rec):
@@ -564,9 +587,70 @@ def check_prov(case):
     return [(k, w if w.startswith(how) else "%s: %s" % (how, w)) for k, w in out]
 
 
+# ---------------------------------------------------------------------------------------------------------------------
+# (ix) reservoir cells: EVERY species of a cell flagged, next to free cells that hold nothing.  "It still acts as ... a
+# diffusion source and sink for its neighbours": the free neighbours are fed by the reservoir's outgoing jumps.
+
+RES_DT = 2.0 ** -4
+RES_STEPS = 32
+
+
+def _res_space(name):
+    if name == "grid2":
+        return 2, {"type": "grid", "w": 2, "h": 1, "d": 1, "vol": 2.0}
+    if name == "grid3":
+        return 3, {"type": "grid", "w": 3, "h": 1, "d": 1, "vol": 2.0}
+    if name == "grid3p":
+        return 3, {"type": "grid", "w": 3, "h": 1, "d": 1, "vol": 2.0, "bc": {"x": "periodical"}}
+    if name == "grid2x2":
+        return 4, _space("grid", 4)
+    if name == "graph2":
+        return 2, _space("graph", 2)
+    if name == "graph3":
+        return 3, _space("graph", 3)
+    return 4, _space("graph", 4)
+
+
+def gen_res(tier, seed0):
+    seeds = list(range(1000 * seed0, 1000 * seed0 + (2 if tier == "quick" else 4)))
+    nets = [("A diffuses", ["A"], [], [2.0], [400.0]),
+            ("A<->B+diff", ["A", "B"], [{"eq": [[["A", 1]], [["B", 1]]], "kf": 3.0, "kr": 5.0}], [2.0, 3.0], [400.0, 300.0]),
+            ("A<->B+diff, reservoir holds no B", ["A", "B"], [{"eq": [[["A", 1]], [["B", 1]]], "kf": 3.0, "kr": 5.0}], [2.0, 3.0], [400.0, 0.0])]
+    if tier == "thorough":
+        nets.append(("A decays", ["A"], [{"eq": [[["A", 1]], []], "kf": 1.5, "kr": 0.0}], [1.0], [350.0]))
+    for sname in ("grid2", "grid3", "grid3p", "grid2x2", "graph2", "graph3", "graph4"):
+        nc, space = _res_space(sname)
+        for netname, labels, reactions, Dc, amount in nets:
+            ns = len(labels)
+            for rc in range(nc):           # the reservoir cell
+                chem = [0] * (ns * nc)
+                state = [0.0] * (ns * nc)
+                for si in range(ns):
+                    chem[si * nc + rc] = [1, 2, 5][(rc + si) % 3]
+                    state[si * nc + rc] = amount[si]
+                spec = {"species": [{"label": labels[si], "D": Dc[si]} for si in range(ns)], "reactions": reactions, "envs": [""],
+                        "space": space, "state": state, "chemostats": chem}
+                yield {"res": True, "shape": [ns, nc], "gtype": space["type"], "space_name": sname, "net": netname, "reservoir": rc,
+                       "spec": spec, "seeds": seeds}
+
+
+def check_res(case):
+    out = []
+    spec = case["spec"]
+    try:
+        system = models.build_system(spec)
+    except Exception as e:
+        return [("C03:build:unexpected-exception", "%s: %s" % (type(e).__name__, e))]
+    _engines(out, spec, system, case["seeds"], RES_DT, RES_STEPS)
+    how = "%s on %s, every species of cell %d chemostated, the other cells empty" % (case["net"], case["space_name"], case["reservoir"])
+    return [(k, "%s: %s" % (how, w)) for k, w in out]
+
+
 def check_case(case):
     if case.get("wide"):
         return check_wide(case)
+    if case.get("res"):
+        return check_res(case)
     if case.get("prov"):
         return check_prov(case)
     out = []
@@ -683,6 +767,13 @@ def _work(job):
             for key, what in res:
                 acc.violation(key, what, case)
             continue
+        if case.get("res"):
+            acc.add(states=1, transitions=nruns, traces=nruns, evaluations=nruns, nontrivial=1)
+            acc.count("reservoir_cases:" + case["gtype"])
+            acc.count("engine_runs", nruns)
+            for key, what in res:
+                acc.violation(key, what, case)
+            continue
         if case.get("wide"):
             acc.count("wide_cases_%d_species" % case["shape"][0])
             acc.add(states=1, transitions=nruns, traces=nruns, evaluations=nruns, nontrivial=1)
@@ -723,6 +814,8 @@ def run(ctx):
     nwide = len(_CASES) - nplain - nowned
     _CASES += list(gen_prov(ctx.tier, ctx.seed))
     nprov = len(_CASES) - nplain - nowned - nwide
+    _CASES += list(gen_res(ctx.tier, ctx.seed))
+    nres = len(_CASES) - nplain - nowned - nwide - nprov
     eng.so_path("plain")
     try:
         eng.so_path("probe")
@@ -731,7 +824,7 @@ def run(ctx):
     nhead = nplain + nowned
     # the wide cases are the heaviest: small chunks, started first
     jobs = [(nhead + lo, nhead + hi) for lo, hi in pool.chunks(nwide, 2)] + pool.chunks(nhead, 12)
-    jobs += [(nhead + nwide + lo, nhead + nwide + hi) for lo, hi in pool.chunks(nprov, 16)]
+    jobs += [(nhead + nwide + lo, nhead + nwide + hi) for lo, hi in pool.chunks(nprov + nres, 16)]
     res = pool.pmap(_work, jobs, timeout=600)
     done = 0
     for job, r in zip(jobs, res):
@@ -759,6 +852,12 @@ def run(ctx):
                  "species: cells alternate, one seed) (values 1, 2, 5) plus flag pairs (thorough: more pairs and all seven); apply_reaction around the flagged species; Euler %d steps "
                  "vs reference, tau-leap (flagged constant, integers, no impossible frozen entry), Gillespie 120 legal events x "
                  "seed window" % WIDE_STEPS, nwide, nwide if done == len(_CASES) else 0, exhaustive=(done == len(_CASES)))
+    ctx.subspace("reservoir cells: every species of one cell flagged (values 1, 2, 5; 400 / 300 molecules, or no B), all other cells "
+                 "empty and free, every D > 0; networks {A diffuses, A<->B, A<->B with an empty-B reservoir (thorough: + A decays)} x "
+                 "spaces {2x1x1, 3x1x1, periodic 3x1x1, 2x2x1 grids, 2-, 3-, 4-node graphs} x each cell as the reservoir; Euler %d "
+                 "steps vs reference, tau-leap %d steps and 120 Gillespie events x seed window: flagged constant, legal events, no "
+                 "unflagged entry frozen with probability bound <= %g (the free neighbours must be fed by the reservoir)"
+                 % (RES_STEPS, RES_STEPS, FROZEN_EPS), nres, nres if done == len(_CASES) else 0, exhaustive=(done == len(_CASES)))
     ctx.subspace("flag provenance: 2 species x {3-cell periodic grid, 3-node graph} x cell environments {[a,b,b], [a,b,c]} + single "
                  "cell / node in environment b; Species.chstt of each species in {False, True, {a:T,b:F}, {b:T}, {a:F,default:T}, "
                  "{a:T,b:F,default:T}} (all 36 pairs); map in effect: generated by the system; generated then edited with set_chemostat "
@@ -772,7 +871,8 @@ def run(ctx):
              "2^(species*cells) subsets are enumerated so a wrong-species / wrong-cell flag lookup cannot hide")
     ctx.assume("reference rate law and CME channel model (mc/ref); seed window [1000*VERIF_SEED, +2 quick / +8 thorough)")
     ctx.assume("tau-leap 'unflagged-entry-frozen': documented model (DESIGN A.3: firings of a channel in a step ~ independent "
-               "Poisson(a dt)); reported only when the probability bound of the observation is <= %g" % FROZEN_EPS)
+               "Poisson(a dt)); Gillespie 'unflagged-entry-frozen': CME event law (event c with probability a_c / a0); reported only "
+               "when the probability bound of the observation is <= %g" % FROZEN_EPS)
     ctx.note("seed_window", [_CASES[0]["seeds"][0], _CASES[0]["seeds"][-1]])
 
 
